@@ -146,7 +146,7 @@ def _work(p, minimize=True):
 
 def programs(tier, seed):
     rng = random.Random(seed)
-    out = list(progs.CORPUS) + list(progs.VARLEN)
+    out = list(progs.CORPUS) + list(progs.VARLEN) + list(progs.VARBLOCK)
     d1 = [p for p, e in progs.typed(progs.depth1())]
     out += d1
     out += list(progs.structured(2))        # targeted: structural constructor pairs over equal-length axes, multi-factor products (exhaustive at level 2)
